@@ -9,7 +9,7 @@ C10 — literal and constant values match the compiler on each platform: propert
 Objects (all executable, see Model/):
   `toBigNumber`, `toBigUNumber`, `isInt`, `isValidIntegerSuffix`  copies of lib/mathlib.cpp
   `characterLiteralToLL`                                          copy of externals/simplecpp/simplecpp.cpp
-  `truncateIntValue`, `getMinMaxValues`, `constValue`             copies of lib/vf_common.cpp
+  `truncateIntValue`, `getMinMaxValues`, `constValue`, `charAdjust`   copies of lib/vf_common.cpp
   `Lit`/`render`/`Lit.value`, `CharLit`/`CharLit.render`/`CharLit.value`, `specSuffix`, `wrapC`   the specification side
   `Gen.Platforms.*`                                               extracted from lib/platform.cpp + platforms/*.xml on every run
 -/
@@ -70,20 +70,19 @@ theorem suffix_iff_spec (s : Str) : isValidIntegerSuffix s true = specSuffix s :
 /-! ## character literals -/
 
 /-- Every well-formed character literal (prefix none/u8/u/L; plain characters, simple, octal, hexadecimal and
-    universal escapes; any number of c-chars for the unprefixed kind) that does not contain the spelling
-    `\x0` `x|X` hex-digit gets the value of the specification. -/
-theorem charlit_value_partial (c : CharLit) (hwf : c.WF = true) (hq : hex0x c.elems = false) :
-    characterLiteralToLL c.render = .ok c.value :=
-  charlit_value_of c hwf hq
+    universal escapes; any number of c-chars for the unprefixed kind) gets the value of the specification. -/
+theorem charlit_value (c : CharLit) (hwf : c.WF = true) : characterLiteralToLL c.render = .ok c.value :=
+  charlit_value_of c hwf
 
-example : (⟨.narrow, [.plain 'a', .simple 'n', .oct "17".toList, .hex "fF".toList]⟩ : CharLit).WF = true ∧
-    hex0x (⟨.narrow, [.plain 'a', .simple 'n', .oct "17".toList, .hex "fF".toList]⟩ : CharLit).elems = false := by decide
+example : (⟨.narrow, [.plain 'a', .simple 'n', .oct "17".toList, .hex "fF".toList]⟩ : CharLit).WF = true := by decide
 example : (⟨.utf16, [.ucn4 "20aC".toList]⟩ : CharLit).WF = true := by decide
+example : (⟨.narrow, [.hex ['0'], .plain 'x', .plain '4']⟩ : CharLit).WF = true ∧
+    characterLiteralToLL (⟨.narrow, [.hex ['0'], .plain 'x', .plain '4']⟩ : CharLit).render = .ok 30772 := by decide
 
-/-- Without that exclusion the statement is false of the code: `'\x0x4'` is the three c-chars `\x0`, `x`, `4`
-    (gcc/clang: 30772); strtoull skips the `0x` and the code returns 4. -/
-theorem charlit_value_counterexample :
-    ¬ ∀ c : CharLit, c.WF = true → characterLiteralToLL c.render = .ok c.value := by
+/-- The function before commit bed3bd1 (`pre := true`: the rest of the literal went to strtoull, which skips a `0x`
+    prefix) did not satisfy the statement: `'\x0x4'` is the three c-chars `\x0`, `x`, `4` (gcc/clang: 30772), it returned 4. -/
+theorem charlit_value_before_fix_counterexample :
+    ¬ ∀ c : CharLit, c.WF = true → characterLiteralToLL c.render true = .ok c.value := by
   intro h
   have := h ⟨.narrow, [.hex ['0'], .plain 'x', .plain '4']⟩ (by decide)
   revert this
@@ -148,11 +147,11 @@ theorem minmax_counterexample :
   revert this
   decide
 
-/-- a negative `toBigNumber` result on a literal of unsigned type narrower than 8 bytes is replaced by its value
-    in the type (`signedValue += maxValue + 1`), provided it is not below −2^bits -/
-theorem const_unsigned_adjust (v : Int) (size bits : Nat) (hb : 2 ≤ bits ∧ bits < 62) (hs : size < 8)
+/-- a negative `toBigNumber` result on a (non-character) literal of unsigned type narrower than 8 bytes is replaced by its
+    value in the type (`signedValue += maxValue + 1`), provided it is not below −2^bits -/
+theorem const_unsigned_adjust (v : Int) (size bits : Nat) (cs : Option Bool) (cb : Nat) (hb : 2 ≤ bits ∧ bits < 62) (hs : size < 8)
     (hv : -(2 ^ bits : Int) ≤ v ∧ v < 0) :
-    constValue v true size (some bits) = some (wrapC bits false v) := by
+    constValue v false cs cb true size (some bits) = some (wrapC bits false v) := by
   have h1 : ¬ bits = 1 := by omega
   have hposN : 0 < 2 ^ bits := Nat.two_pow_pos bits
   have hleN : 2 ^ bits ≤ 2 ^ 61 := Nat.pow_le_pow_right (by decide) (by omega)
@@ -165,12 +164,26 @@ theorem const_unsigned_adjust (v : Int) (size bits : Nat) (hb : 2 ≤ bits ∧ b
     simp [getMinMaxValues, h1, hb.2]
   have hr : toI64 (toU64 (v + ((2 : Int) ^ bits - 1 + 1))) = v + ((2 ^ bits : Nat) : Int) := by
     rw [hcast, toI64_toU64_of_range (by omega) (by omega)]; omega
-  simp only [constValue, Bool.true_and, decide_eq_true_eq, hv.2, hs, Option.bind_some, hm, hr, hw, if_true]
+  simp only [constValue, charAdjust, Bool.false_eq_true, if_false, Bool.true_and, decide_eq_true_eq, hv.2, hs, Option.bind_some, hm, hr, hw, if_true]
   have : ¬ (v + ((2 ^ bits : Nat) : Int) < 0) := by omega
   simp [this]
   intro _; exact hs
 
-example : (2 ≤ 8 ∧ 8 < 62) ∧ (1 < 8) ∧ (-(2 ^ 8 : Int) ≤ -1 ∧ (-1 : Int) < 0) ∧ constValue (-1) true 1 (some 8) = some 255 := by decide
+example : (2 ≤ 8 ∧ 8 < 62) ∧ (1 < 8) ∧ (-(2 ^ 8 : Int) ≤ -1 ∧ (-1 : Int) < 0) ∧ constValue (-1) false none 8 true 1 (some 8) = some 255 := by decide
+
+/-- 731a3b3: an ordinary one-character literal with code `b` is valued `(char)b` by the host-char converter; the adjustment
+    turns it into the value of the analysed platform's `char` (0…255 if unsigned, −128…127 if signed) -/
+theorem char_platform_sign (b : Nat) (hb : b < 256) (u : Bool) :
+    charAdjust (Int.bmod b 256) true (some u) 8 = if u then (b : Int) else Int.bmod b 256 := by
+  rw [Int.bmod_def]
+  cases u <;> simp only [charAdjust, if_true, Bool.false_eq_true, if_false] <;> (repeat' split) <;> omega
+
+example : (255 < 256) ∧ charAdjust (Int.bmod 255 256) true (some true) 8 = 255 ∧ charAdjust (Int.bmod 255 256) true (some false) 8 = -1 := by decide
+
+/-- on a token whose type is not unsigned the reported value is the (adjusted) `toBigNumber` result -/
+theorem const_signed_type (v : Int) (cc : Bool) (cs : Option Bool) (cb size : Nat) (bits : Option Nat) :
+    constValue v cc cs cb false size bits = some (charAdjust v cc cs cb) := by
+  simp [constValue]
 
 /-! ## platform tables (re-proved over the table extracted on this run) -/
 
